@@ -49,7 +49,7 @@ func init() {
 			"family:overlay", "family:nearplanar", "family:random", "family:hubs", "family:named", "verdict:planar", "verdict:nonplanar",
 			"derived:subgraph", "derived:subdivide", "derived:pendant+isolated", "metamorphic:pairs",
 			"calls:view", "view:induced", "view:complement", "view:nested", "view:over-dense", "view:over-sparse", "view:of-a-larger-graph",
-			"calls:dense-variant", "calls:sparse-variant", "calls:struct-by-value", "repeat-call", "repeat-call:view",
+			"calls:dense-variant", "calls:sparse-variant", "calls:user-defined-graph", "calls:struct-by-value", "repeat-call", "repeat-call:view",
 			"calls:view-session", "session:calls-on-host", "session:calls-on-view", "session:host-dense", "session:host-sparse", "session:host-is-complement",
 			"session:requery-after-edit", "session:requery-after-edit,N+M-same", "session:requery:truth-changed", "session:requery:truth-changed,N+M-same",
 			"session:requery:truth-changed,N+M+degrees-same", "session:requery:truth-changed,N-changed", "session:first-query-after-edits", "session:repeat-call",
@@ -142,8 +142,17 @@ func (m *mon) call(g *rg.G, id string, repr int, expect string, detail func(repr
 			h = g.Sparse()
 		}
 	}
+	// a Graph implemented by the caller (adjacency lists; Neighbours and Degrees hand out the stored slices): every
+	// sixth sparse call
+	var user *rg.UserGraph
+	if repr == sparse && hv>>16%6 == 0 {
+		user = g.User()
+		h = user
+		name = "user-defined Graph"
+		c.Obs("calls:user-defined-graph", 1)
+	}
 	// DenseGraph and SparseGraph have value receivers for all five observers: a struct VALUE is a Graph as well
-	if repr != view && hv>>12%8 == 0 {
+	if repr != view && user == nil && hv>>12%8 == 0 {
 		switch x := h.(type) {
 		case *graph.DenseGraph:
 			h = *x
@@ -183,6 +192,12 @@ func (m *mon) call(g *rg.G, id string, repr int, expect string, detail func(repr
 		res = graph.IsPlanar(h)
 	})
 	c.Obs("calls:"+reprName(repr), 1)
+	if user != nil {
+		if bad := user.Intact(g); bad != "" {
+			c.Violation("IsPlanar|modified-its-argument|"+id, detail(describe()), "after the call the caller's adjacency lists read: "+bad, "IsPlanar does not modify its argument (nor the slices its Neighbours / Degrees return)")
+			return false, false, describe
+		}
+	}
 	if pi != nil {
 		c.Obs("panics", 1)
 		key := "IsPlanar|panic|" + engine.SiteNoLine(pi.Site) + "|" + id
